@@ -490,6 +490,8 @@ func TestC07(t *testing.T) {
 	defer s.End()
 	hx.Run(s, c07Proj, s.N(3000, 30000))
 	hx.Run(s, c07Range, s.N(2000, 20000))
+	hx.Run(s, c07ListTarget, s.N(2000, 20000))
+	hx.Run(s, c07Sibling, s.N(2000, 20000))
 }
 
 // ---- fc.range and fc.max-node-count -----------------------------------------------------
